@@ -251,6 +251,22 @@ fn apply_edit(m: &mut Beatmap, r: &mut Rng) -> Edit {
                     BreakPeriod { start_time: s, end_time: e }
                 })
                 .collect();
+            // any list the format can write is an edit value: also breaks listed out of chronological
+            // order and breaks nested inside an earlier one (the list order is what must come back)
+            let mut v = v;
+            match r.below(4) {
+                0 if v.len() >= 2 => {
+                    let (a, b) = (r.below(v.len()), r.below(v.len()));
+                    v.swap(a, b);
+                }
+                1 if !v.is_empty() => {
+                    let outer = v[0].clone();
+                    let s = outer.start_time + (outer.end_time - outer.start_time) * 0.25;
+                    let e = outer.start_time + (outer.end_time - outer.start_time) * 0.5;
+                    v.insert(1, BreakPeriod { start_time: s, end_time: e });
+                }
+                _ => {}
+            }
             Edit { affects_combos: true, ..set_val!(m, v, breaks, "breaks") }
         }
         33 => {
